@@ -60,44 +60,86 @@ def C(hosts=(1, 2, 3), ring0=(1, 2), kinds=(), targets=("ks",), func=(), topo=Tr
 
 
 def graph_configs(quick):
-    """Configurations whose as-built state graph is replayed edge by edge."""
+    """Configurations whose as-built state graph is replayed edge by edge (smallest first)."""
+    both = dict(targets=("ks", "ks.f(int)"), func=("ks.f(int)",))
     out = [
         ("windows-off", C(kinds={"NEW", "MOVED", "SCHEMA", "REMOVED"}, topo=False, schema=False, ev=2)),
-        ("events", C(kinds=ALL_KINDS, targets=("ks", "ks.f(int)"), func=("ks.f(int)",), ev=2)),
-        ("reconnect", C(hosts=(1, 2), kinds={"DOWN"}, ev=1, faults=2, beats=1)),
-        ("ring", C(ev=0, ring=1, faults=1, beats=1)),
+        ("schema", C(kinds={"SCHEMA"}, ev=3, **both)),
+        ("handler", C(hosts=(1,), ring0=(1,), faults=3, beats=1)),
+        ("ring", C(ring=1, faults=1)),
+        ("events", C(kinds={"NEW", "REMOVED", "UP", "SCHEMA"}, ev=2, **both)),
+        ("reconnect", C(hosts=(1, 2), kinds={"DOWN"}, ev=1, faults=1, beats=1)),
+        ("status", C(hosts=(1, 2), kinds={"DOWN", "UP"}, ev=2)),
     ]
     if not quick:
         out += [
+            ("ring-heartbeat", C(ring=1, faults=1, beats=1)),
+            ("events-all", C(kinds=ALL_KINDS, ev=2, **both)),
+            ("reconnect-2faults", C(hosts=(1, 2), kinds={"DOWN"}, ev=1, faults=2, beats=1)),
             ("reconnect-3hosts", C(kinds={"DOWN", "NEW"}, ev=1, faults=2, beats=1)),
             ("ring-2faults", C(ring=1, faults=2, beats=1)),
-            ("shutdown", C(kinds={"DOWN", "REMOVED"}, ev=2, ring=1, faults=1)),
         ]
     return out
 
 
 def intended_only(quick):
     """Larger instances checked by TLC on the intended model only (no replay)."""
+    both = dict(targets=("ks", "ks.f(int)"), func=("ks.f(int)",))
     if quick:
-        return []
-    return [("events-3", C(kinds=ALL_KINDS, targets=("ks", "ks.f(int)"), func=("ks.f(int)",), ev=3)),
+        return [("ring-heartbeat", C(ring=1, faults=1, beats=1))]
+    return [("events-3", C(kinds=ALL_KINDS, ev=3, **both)),
             ("mixed", C(kinds={"DOWN", "UP", "NEW"}, ev=1, ring=1, faults=1, beats=1)),
-            ("ring-2", C(ring=2, faults=1, beats=1))]
+            ("ring-2", C(ring=2, faults=1, beats=1)),
+            ("shutdown", C(kinds={"DOWN", "REMOVED"}, ev=2, ring=1, faults=1))]
 
 
 def expected_actions(c):
-    exp = {"ExecAny", "FireAny", "ShutA", "ShutB", "ShutC"}
-    if c["MaxEvents"] and c["Kinds"]:
-        exp.add("Push")
+    """What must occur as the `act` of some state of the exhaustive graph (vacuity guard on the actions; finer than TLC's
+    -coverage, which costs a factor in run time: executor tasks by kind, reconnection steps by kind and origin)."""
+    exp = {"Exec:none", "ShutA", "ShutB", "ShutC"}
+    ev = c["MaxEvents"] and c["Kinds"]
+    if ev:
+        exp |= {"Push:" + k for k in c["Kinds"]}
+        if c["Kinds"] & {"REMOVED"}:
+            exp |= {"Fire:RemoveHost", "Exec:RemoveHost"}
+        if c["TopoOn"] and c["Kinds"] & {"NEW", "MOVED"}:
+            exp |= {"Fire:RefreshIf", "Exec:RefreshIf"}
+        if c["SchemaOn"] and "SCHEMA" in c["Kinds"]:
+            exp |= {"Fire:Schema", "Exec:Schema"}
+        if "UP" in c["Kinds"]:
+            exp |= {"Fire:OnUp", "Exec:OnUp"}
+            if c["Hosts"] - c["Ring0"]:
+                exp |= {"Fire:Refresh", "Exec:Refresh"}
+        if "DOWN" in c["Kinds"]:
+            exp |= {"Exec:OnDown", "Fire:HRecon", "Exec:HRecon", "Exec:Reconnect", "RcStep:direct.try", "RcStep:direct.set"}
     if c["MaxRing"]:
-        exp |= {"RingAdd", "RingRemove"}
+        exp |= {"RingAdd", "RingRemove", "Exec:RefreshIf", "Exec:RemoveHost"}
     if c["MaxFaults"]:
         exp |= {"NodeMode", "ConnDie"}
     if c["MaxBeats"] and c["MaxFaults"]:
-        exp.add("Heartbeat")
-    if c["MaxFaults"] or "DOWN" in c["Kinds"]:
-        exp.add("StepAny")
+        exp |= {"Heartbeat", "Exec:Reconnect", "RcStep:direct.try", "RcStep:direct.set"}
+    if c["MaxBeats"] and c["MaxFaults"] >= len(c["Ring0"]) + 1:
+        exp |= {"RcStep:direct.nohost", "Fire:CRecon", "Exec:CRecon"}
+    if c["MaxBeats"] and c["MaxFaults"] >= len(c["Ring0"]) + 2:
+        exp |= {"RcStep:handler.try", "RcStep:handler.set", "RcStep:handler.nohost"}
+    exp.discard("Exec:none")
     return exp
+
+
+def actions_in(states):
+    out = set()
+    for st in states:
+        a = st["act"]
+        n = a["name"]
+        if n in ("Exec", "Fire"):
+            out.add("%s:%s" % (n, a["t"]["k"]))
+        elif n == "RcStep":
+            out.add("RcStep:%s.%s" % (a["r"]["via"], a["kind"]))
+        elif n == "Push":
+            out.add("Push:%s" % a["kind"])
+        else:
+            out.add(n)
+    return out
 
 
 # ---------------------------------------------------------------------- deviation probes
@@ -160,28 +202,46 @@ def _replay_walk(i):
     w = _G["walks"][i]
     states = [_G["nodes"][n] for n in w]
     try:
-        div, bad = ce.replay(_G["consts"], states, seed=i)
+        div, bad = ce.replay(ce.consts_of(states[0]["sc"], _G["fixed"]), states, seed=i)
     except Exception as ex:                  # harness construction failed (e.g. the driver cannot even connect)
         div, bad = {"step": 0, "action": "Init", "diff": {"_exception": {"spec": "no exception",
                                                                         "code": "%s: %s" % (type(ex).__name__, ex)}}}, {}
     return i, div, bad
 
 
-def replay_graph(nodes, walks, consts, workers):
+def replay_graph(nodes, walks, fixed, workers):
     """Replay every walk; yields (index, divergence or None, after-return findings)."""
+    import gc
     import multiprocessing
-    _G.update(nodes=nodes, walks=walks, consts=consts)
-    if workers <= 1 or len(walks) < 64:
-        for i in range(len(walks)):
-            yield _replay_walk(i)
-        return
-    pool = multiprocessing.get_context("fork").Pool(processes=workers)
-    try:
-        for r in pool.imap_unordered(_replay_walk, range(len(walks)), chunksize=32):
-            yield r
+    _G.update(nodes=nodes, walks=walks, fixed=set(fixed))
+    gc.collect()
+    gc.freeze()              # the parsed graph is immortal from here on: no collector pass walks it (nor, in the forked
+    try:                     # workers, touches its pages)
+        if workers <= 1 or len(walks) < 64:
+            for i in range(len(walks)):
+                yield _replay_walk(i)
+            return
+        pool = multiprocessing.get_context("fork").Pool(processes=workers)
+        try:
+            for r in pool.imap_unordered(_replay_walk, range(len(walks)), chunksize=32):
+                yield r
+        finally:
+            pool.terminate()
+            pool.join()
     finally:
-        pool.terminate()
-        pool.join()
+        gc.unfreeze()
+
+
+def replay_workers():
+    """Worker processes for the replay: the cores nobody else is using (forked workers on a saturated machine are slower
+    than one process)."""
+    if os.environ.get("VERIF_REPLAY_WORKERS"):
+        return max(1, int(os.environ["VERIF_REPLAY_WORKERS"]))
+    try:
+        free = (os.cpu_count() or 1) - os.getloadavg()[0]
+    except OSError:
+        free = 1
+    return max(1, min(8, int(free)))
 
 
 def sig_of(div):
@@ -271,38 +331,41 @@ def run(ctx):
             if not any(x["k"] == "Refresh" for x in bad4[5]["post"]["sched"]) else [x for x in bad4[5]["post"]["sched"] if x["k"] != "Refresh"]
         selftest = [traces[victim][:8], bad1, bad2, bad3, bad4]
 
-    # ---- 2. TLC jobs, a few JVMs at a time (threads only wait for the JVMs; they are gone before the replay forks)
+    # ---- 2. TLC jobs: one JVM explores all replayed configurations (the specification's Scenarios), one the intended
+    # model, one validates the recorded runs (threads only wait for the JVMs; they are gone before the replay forks)
     cfgs = graph_configs(quick)
+    name_of = {ce.scenario_tla(c): name for name, c in cfgs}
     jobs = {}
-    pool = cf.ThreadPoolExecutor(max_workers=4)
+    pool = cf.ThreadPoolExecutor(max_workers=5)
 
     def workdir(name):
         d = os.path.join(ctx.scratch, name.replace(" ", "_"))
         os.makedirs(d, exist_ok=True)
         return d
 
-    for name, c in cfgs:
-        d = workdir("built_" + name)
-        p = tlc.write_cfg(os.path.join(d, "built.cfg"), constants=dict(c, Fixed=fixed_built), invariants=built_inv,
-                          properties=PROPERTIES, constraints=["RecordWitnesses"], postcondition="PrintWitnesses", deadlock=False)
-        jobs["built", name] = pool.submit(tlc.state_graph, "ControlEvents", p, d, coverage=True, timeout=1500, workers=1)
+    batches = [("built", cfgs[:7])] + ([("built-large", cfgs[7:])] if cfgs[7:] else [])
+    for label, part in batches:
+        d = workdir(label)
+        mod, consts = ce.tla_constants([c for _, c in part], fixed_built, d)
+        p = tlc.write_cfg(os.path.join(d, "built.cfg"), constants=consts, invariants=built_inv, properties=PROPERTIES,
+                          constraints=["RecordWitnesses"], postcondition="PrintWitnesses", deadlock=False)
+        jobs[label] = pool.submit(tlc.state_graph, mod, p, d, timeout=1500, workers=1)
     d = workdir("trace")
-    tcfg = tlc.write_cfg(os.path.join(d, "trace.cfg"), init="TraceInit", next="TraceNext", constants=tconsts,
+    mod, consts = ce.tla_constants([tconsts], fixed_built, d, base="Trace_ControlEvents")
+    tcfg = tlc.write_cfg(os.path.join(d, "trace.cfg"), init="TraceInit", next="TraceNext", constants=consts,
                          invariants=built_inv, constraints=["Progress"], postcondition="Done", deadlock=False)
-    jobs["trace"] = pool.submit(tlc.validate_traces, "Trace_ControlEvents", tcfg, traces + selftest, d, timeout=2400)
+    jobs["trace"] = pool.submit(tlc.validate_traces, mod, tcfg, traces + selftest, d, timeout=2400)
+    intended = list(intended_only(quick))
     if present:            # without deviations the as-built model is the intended one
-        for name, c in cfgs:
-            if quick and not (broken & set(_relevant_inv(name))):
-                continue
-            d = workdir("intended_" + name)
-            p = tlc.write_cfg(os.path.join(d, "intended.cfg"), constants=dict(c, Fixed=set(ALL_DEV)), invariants=INVARIANTS,
-                              properties=PROPERTIES, deadlock=False)
-            jobs["intended", name] = pool.submit(tlc.check_model, "ControlEvents", p, d, timeout=1500, workers=4)
-    for name, c in intended_only(quick):
-        d = workdir("intended_" + name)
-        p = tlc.write_cfg(os.path.join(d, "intended.cfg"), constants=dict(c, Fixed=set(ALL_DEV)), invariants=INVARIANTS,
-                          properties=PROPERTIES, deadlock=False)
-        jobs["intended", name] = pool.submit(tlc.check_model, "ControlEvents", p, d, timeout=2400, workers=6)
+        intended = [(n, c) for n, c in cfgs if not quick or broken & set(_relevant_inv(n))] + intended
+    for k in range(0, len(intended), 4):
+        part = intended[k:k + 4]
+        label = "intended: " + ", ".join(n for n, _ in part)
+        d = workdir("intended_%d" % k)
+        mod, consts = ce.tla_constants([c for _, c in part], ALL_DEV, d)
+        p = tlc.write_cfg(os.path.join(d, "intended.cfg"), constants=consts, invariants=INVARIANTS, properties=PROPERTIES,
+                          deadlock=False)
+        jobs["intended", label] = pool.submit(tlc.check_model, mod, p, d, timeout=2400, workers=6 if quick else 8)
 
     def spec_violation(res, label):
         tr = res.trace()
@@ -310,59 +373,80 @@ def run(ctx):
               replay={"trace": [dict(s.get("act", {})) for _, s in tr]}, signature="spec:%s" % res.invariant)
 
     t0 = time.time()
-    graphs = {}
+    graphs = []
     reached = set()
-    for name, c in cfgs:
-        res, nodes, edges, init = jobs["built", name].result()
-        ctx.add_tlc(res, "as-built %s %s" % (name, _cs(c)))
+    actions_seen = set()
+    for label, part in batches:
+        res, nodes, edges, init = jobs[label].result()
+        ctx.add_tlc(res, "as-built (%s): %s" % (label, "; ".join("%s %s" % (n, _cs(c)) for n, c in part)))
         if res.violation:
-            spec_violation(res, "as built, %s" % name)
+            spec_violation(res, "as built, %s" % label)
             continue
-        cov = res.coverage()
-        exp = expected_actions(c)
-        zero = sorted(a for a in exp if a in cov and cov[a][1] == 0)
-        missing = sorted(a for a in exp if a not in cov)
-        if zero or missing:
-            raise tlc.MachineryError("actions never taken in the exhaustive model %s: %s (not reported: %s)" % (name, zero, missing))
-        reached |= witnesses_in(res, [], "ControlEvents")
-        graphs[name] = (nodes, edges, init)
+        by_name = {}
+        for st in nodes.values():
+            by_name.setdefault(name_of.get(ce.scenario_tla(ce.consts_of(st["sc"]))), []).append(st)
+        for n, c in part:
+            taken = actions_in(by_name.get(n, ()))
+            never = sorted(expected_actions(c) - taken)
+            if never:
+                raise tlc.MachineryError("actions never taken in the exhaustive model %s: %s" % (n, never))
+            actions_seen |= taken
+        if label == "built":
+            reached |= witnesses_in(res, [], "ControlEvents")
+        graphs.append((label, nodes, edges, init, {n: len(v) for n, v in by_name.items()}))
     for key, fut in list(jobs.items()):
         if key[0] == "intended":
             res = fut.result()
-            ctx.add_tlc(res, "intended %s" % key[1])
+            ctx.add_tlc(res, key[1])
             if res.violation:
-                spec_violation(res, "intended, %s" % key[1])
+                spec_violation(res, key[1])
     tres, prog = jobs["trace"].result()
     pool.shutdown(wait=True)
     timing["tlc_s"] = round(time.time() - t0, 2)
     missing = sorted(set(WITNESSES) - reached)
-    if missing and len(graphs) == len(cfgs):
+    if missing and graphs and graphs[0][0] == "built":
         raise tlc.MachineryError("vacuity witnesses not reached in any configuration: %s" % missing)
     ctx.note("vacuity_witnesses_reached", sorted(reached & set(WITNESSES)))
+    ctx.note("coverage_actions_taken", sorted(actions_seen))
     ctx.note("model", {"fixed_in_as_built_model": sorted(fixed_built), "invariants_checked_as_built": built_inv,
                        "invariants_checked_intended": INVARIANTS, "action_properties": PROPERTIES})
 
     # ---- 3. spec -> code: every edge of every as-built graph
     t0 = time.time()
     replayed = steps = diverged = 0
-    workers = int(os.environ.get("VERIF_REPLAY_WORKERS") or 8)
-    for name, c in cfgs:
-        if name not in graphs:
-            continue
-        nodes, edges, init = graphs.pop(name)
-        consts = dict(c, Fixed=fixed_built)
+    workers = replay_workers()
+    ctx.note("replay_worker_processes", workers)
+    deadline = ctx.t0 + (10 ** 9 if quick else 480.0)      # thorough: the largest graphs are replayed as far as time allows
+    order = {n: k for k, (n, _) in enumerate(cfgs)}
+    for label, nodes, edges, init, sizes in graphs:
+        def scen(nid):
+            return name_of.get(ce.scenario_tla(ce.consts_of(nodes[nid]["sc"])))
         walks = _covering_walks(edges, init)
-        all_edges = set((s, d) for s, d, _ in edges)
+        walks.sort(key=lambda w: order.get(scen(w[0]), 99))          # stable: smallest configurations first
+        per = {n: {"states": sizes.get(n, 0), "edges": 0, "edges_replayed": 0, "walks": 0} for n, _ in cfgs if n in sizes}
+        edge_scen = {}
+        for s_, d_, _ in edges:
+            edge_scen[s_, d_] = scen(s_)
+        for e, n in edge_scen.items():
+            per[n]["edges"] += 1
         covered = set()
-        done = 0
-        for i, div, bad in replay_graph(nodes, walks, consts, workers):
+        cut = False
+        results = replay_graph(nodes, walks, fixed_built, workers)
+        for i, div, bad in results:
+            if time.time() > deadline:
+                cut = True
+                results.close()
+                break
             w = walks[i]
-            done += 1
+            name = scen(w[0])
+            per[name]["walks"] += 1
             upto = len(w) - 1 if div is None else max(div["step"] - 1, 0)
             covered.update(zip(w[:upto], w[1:upto + 1]))
             steps += upto
+            replayed += 1
             if i % 500 == 0 or div is not None or bad:
                 acts = [ce.act_of(nodes[n]) for n in w[1:]]
+                consts = ce.consts_of(nodes[w[0]]["sc"], fixed_built)
                 if i % 500 == 0:
                     ctx.sample({"direction": "spec->code", "config": name, "actions": [ce.short(a) for a in acts[:14]]})
                 if div is not None:
@@ -374,14 +458,20 @@ def run(ctx):
                     _viol(ctx, "after shutdown() returned (%s): %s" % (name, bad),
                           replay={"constants": _jc(consts), "actions": acts, "after_return": bad},
                           signature="after-shutdown:%s" % ",".join(sorted(bad)))
-            last = nodes[w[-1]]["act"]["name"]
-            if last in ("RcStep", "ShutB", "ShutC", "Heartbeat") or nodes[w[-1]]["phase"] > 0:
+            last = nodes[w[-1]]
+            if last["act"]["name"] in ("RcStep", "ShutB", "ShutC", "Heartbeat") or last["phase"] > 0:
                 ctx.nontrivial((name, w[-1]))
-        ctx.note("graph_%s" % name, {"states": len(nodes), "edges": len(all_edges), "edges_replayed": len(covered & all_edges),
-                                     "walks": done, "exhaustive": all_edges <= covered})
-        if not all_edges <= covered and not diverged:
-            raise tlc.MachineryError("replay of %s left %d edges uncovered without reporting a divergence" % (name, len(all_edges - covered)))
-        replayed += done
+        for e in covered:
+            if e in edge_scen:
+                per[edge_scen[e]]["edges_replayed"] += 1
+        for n, v in per.items():
+            v["exhaustive"] = v["edges_replayed"] == v["edges"]
+            ctx.note("graph_%s" % n, v)
+        if cut:
+            ctx.note("replay_stopped_by_time_budget", True)
+        if not set(edge_scen) <= covered and not diverged and not cut:
+            raise tlc.MachineryError("replay of %s left %d edges uncovered without reporting a divergence"
+                                     % (label, len(set(edge_scen) - covered)))
         del nodes, edges, walks
     timing["replay_s"] = round(time.time() - t0, 2)
     ctx.traces_validated += replayed
@@ -426,7 +516,7 @@ def run(ctx):
     else:
         raise tlc.MachineryError("binding self-test: no recorded run long enough")
     # replay direction: a flipped expectation must be noticed
-    h = ce.EventsHarness(dict(cfgs[1][1], Fixed=fixed_built))
+    h = ce.EventsHarness(dict(C(kinds={"NEW"}, ev=1), Fixed=fixed_built))
     try:
         p = h.do(ce.A("Push", kind="NEW", h=3, c=1))
     finally:
@@ -460,7 +550,8 @@ def run(ctx):
 
 
 def _relevant_inv(name):
-    return {"events": ["OnePending"], "reconnect": ["InstalledOpen"], "ring": ["Fresh"], "windows-off": []}.get(name, INVARIANTS)
+    return {"events": ["OnePending"], "schema": ["OnePending"], "handler": ["InstalledOpen"], "reconnect": [], "ring": [], "status": [],
+            "windows-off": []}.get(name, INVARIANTS)
 
 
 def replay(ctx, obj):
